@@ -48,21 +48,42 @@ PARTIAL = {
         'constructing Atoms from the selected converted properties, defaults for a missing atype / pos). The System '
         'theorems are about writing all properties in dictionary order (the default of System.model / dump); a '
         'System.model call that selects properties is not stated',
+    'System objects': 'the object model (BoxObj / SysObj, BoxReach) covers the state that matters for this property - '
+        'the reciprocal vectors a Box keeps - and the operations vects/origin setters, reciprocal_vects, position '
+        'conversions, Box.model(model=), System.model; the other Box.set_* entry points (lengths, hi/los, abc) go '
+        'through the same vects setter and are not modelled; Atoms and System have no model= reader on an existing '
+        "object (constructors only); ElasticConstants keeps no derived state (observed: model(model=) on a used "
+        'object = fresh object)',
+    "ElasticConstants 'isotropic'": "normalized_as('isotropic') goes through the Hill estimates shear()/bulk() (inverse "
+        '6x6 array, property C11): they are parameters of normForm, so elastic_model_normal_form covers the six '
+        "closed-form systems; an isotropic tensor stored as 'isotropic' is checked on the real code only (1e-12)",
     'text codecs': "DataModelDict's JSON/XML codecs are not modelled character by character: JSON is taken as the "
         'identity on the tree, XML as xmlNorm (one-element-list collapse); both observed on every correspondence case',
 }
 
-RULE = ('seeded systems (1-7 atoms, 1-3 types, tilted dyadic cells, non-zero origin, random pbc, missing/extra '
-        'symbols, missing masses, int/float/str per-atom properties of rank 1-3), every unit choice per property '
-        "(None, 'scaled' for (n,3) data, several unit expressions of the right dimension), uc.model on values of rank "
-        '0-4, Box, Atoms, ElasticConstants (all crystal systems); each case written under one uc.reset_units '
-        'configuration and read under another, through the DataModelDict tree, its JSON text and its XML text; '
-        'distinct = distinct canonical request line; non-trivial = a unit conversion, a reshape, a scaled property '
-        'or a text encoding is involved; 30 % of the Atoms cases write a random selection of the properties in '
-        'random order (atype / pos possibly left out); systems are also dumped to file paths and file objects')
+RULE = ('seeded systems (1-7 atoms, 1-3 types, tilted / axis-permuted / all-nonzero cells of either handedness on a '
+        'dyadic grid, non-zero origin, random pbc, missing/extra symbols, missing masses, int/float/str per-atom '
+        "properties of rank 1-3), every unit choice per property: None, 'scaled' for (n,3) data, simple units, random "
+        "compound unit expressions (every order of '*' and '/', parentheses, powers incl. negative and fractional, "
+        'number literals, blanks) and dimension-preserving templates with a cancelling factor on either side '
+        "(L/X*X, X*L/X, X/(X/L), eV/GPa/L^2, ... for lengths; eV/L^3, nN/L/L, P/X*X, ... for pressures); uc.model on "
+        'values of rank 0-4, a quarter of them stored with error=; Box; Atoms (30 % with a random selection of the '
+        'properties in random order); ElasticConstants generated in the general normal form of every crystal system '
+        '(isotropic, cubic, hexagonal, 6- and 7-constant tetragonal, 6- and 7-constant rhombohedral, orthorhombic, '
+        'monoclinic, triclinic; Cij= or named constants) and stored as every crystal_system argument (60 % one in '
+        'whose normal form the crystal already is); object sessions: one System holding one Box through 3-8 '
+        'operations out of reciprocal_vects, position conversions, vects/origin setters, Box.model(model=) into the '
+        'existing object, System dumps with box-scaled positions; every case written under one uc.reset_units '
+        'configuration (six, one of them numericalunits\' random units) and read under another, through the '
+        'DataModelDict tree, its JSON text and its XML text; systems also dumped to file paths and file objects, '
+        "with the format name in lower/upper/title case, with indent, and loaded from multi-entry records with key=/"
+        'index=; distinct = distinct canonical request line; non-trivial = a unit conversion, a reshape, a scaled '
+        'property, a text encoding or object state is involved')
 ASSUMPTIONS = [
     "the conversion factor of a unit string under a working-unit configuration is a scalar parameter fac(u) != 0 "
-    "(uc.parse is property C09's subject); the factor of one unit string under two configurations differs by a "
+    "(uc.parse is property C09's subject; on every run the factors handed to the model are evaluated by the harness's "
+    "own recursive-descent evaluator with the standard precedence over the live numericalunits values, never by "
+    "uc.parse); the factor of one unit string under two configurations differs by a "
     "ratio r, and units of the same dimension share that ratio (hypothesis of physical_value_unit_independent)",
     "DataModelDict's JSON codec is lossless on the tree and its XML codec is lossless up to the collapse of "
     "one-element lists (modelled by xmlNorm) for strings that are non-empty, carry no surrounding whitespace and "
@@ -1712,22 +1733,32 @@ def replay(ctx, payload):
 
 
 MANIFEST = {
-    'text': 'Lean model of uc.model/uc.value_unit (rank 0 / 1 / >=2 with shape, unit key), of the DataModelDict tree '
-            '(ordered key->value, append/aslist, XML one-element-list collapse xmlNorm) and of the Box/Atoms/System/'
-            'ElasticConstants model writers and model= constructors (scaled properties, default pos->angstrom, '
-            'symbols/masses padding, near-zero clean-up of the vects/Cij setters). Theorems (all inputs, any field): '
-            'reshape(flatten)=id and flatten(reshape)=id for every shape; value_unit(model(x))=x for every non-zero '
-            'factor, through the tree and through XML text (exact exception: a shape-(1,) vector is read as a scalar); '
-            'Box, Atoms, System (cell, origin, pbc, symbols, masses, every property incl. box-scaled ones via '
-            'rel_cart inverse, det != 0) and ElasticConstants round trips through tree/JSON and XML text; the object '
-            'invariants they assume are established by the setters (cleanVects_idem, cijSet_idem); the stored physical '
-            'value is independent of the working units at write vs read time, and under two configurations every '
-            'number comes back times the C09 dimension factor ratio (box lengths and box-scaled properties by the same '
-            'ratio). Tie: differential correspondence of the real writers/readers against the Lean driver over tree, '
-            'JSON text and XML text under different uc.reset_units configurations, numpy reshape vs the model; clause '
-            'oracle on the real code with unit factors evaluated independently of uc.parse.',
+    'text': 'Lean model of uc.model/uc.value_unit/uc.error_unit (rank 0 / 1 / >=2 with shape, unit key, error=), of the '
+            'DataModelDict tree (ordered key->value, append/aslist, XML one-element-list collapse xmlNorm), of the '
+            'Box/Atoms/System/ElasticConstants model writers and model= constructors (scaled properties, default '
+            'pos->angstrom, symbols/masses padding, near-zero clean-up of the vects/Cij setters), of '
+            'ElasticConstants.normalized_as for every crystal system (normForm) and of objects with state (a Box keeps '
+            'its reciprocal vectors until the vects setter drops them; a System holds its Box; Box.model(model=) on an '
+            'existing object). Theorems (all inputs, any field): reshape(flatten)=id and flatten(reshape)=id for every '
+            'shape; value_unit(model(x))=x and error_unit = the stored error for every non-zero factor, through the tree '
+            'and through XML text (exact exception: a shape-(1,) vector is read as a scalar); Box, Atoms, System (cell, '
+            'origin, pbc, symbols, masses, every property incl. box-scaled ones via rel_cart inverse, det != 0) and '
+            'ElasticConstants round trips through tree/JSON and XML text; a crystal in the general normal form of the '
+            'requested crystal_system (3 cubic, 5 hexagonal, 7 tetragonal, 7 rhombohedral, 9 orthorhombic constants) '
+            'comes back exactly and the stored representation is stable under re-storing; in every reachable state '
+            'of a Box object its conversions are those of its current cell, so an existing Box updated from a model '
+            'and a System written with box-scaled positions behave like freshly constructed objects; the object '
+            'invariants are established by the setters (cleanVects_idem, cijSet_idem); the stored physical value is '
+            'independent of the working units at write vs read time, and under two configurations every number '
+            '(value, error, box length, box-scaled property, elastic constant) comes back times the C09 dimension '
+            'factor ratio. Tie: differential correspondence of the real writers/readers and of object operation '
+            'sequences against the Lean driver over tree, JSON text and XML text under different uc.reset_units '
+            'configurations, numpy reshape vs the model; clause oracle on the real code with unit factors of compound '
+            'unit expressions evaluated independently of uc.parse and an exact rational account of object sessions.',
     'note': 'Trusted: Lean kernel + propext/Classical.choice/Quot.sound; DataModelDict/xmltodict/json codecs (observed, '
-            'not verified: JSON = identity on the tree, XML = xmlNorm); uc.parse factors are parameters (C09); '
-            'normalized_as is a parameter (C11); float rounding bounded by 2e-15 (1e-10 for box-scaled data).',
+            'not verified: JSON = identity on the tree, XML = xmlNorm); uc.parse factors are parameters (C09), supplied '
+            'on each run by an evaluator that shares nothing with uc.parse; the Hill estimates behind '
+            "normalized_as('isotropic') are parameters (C11); float rounding bounded by 2e-15 plus the unit "
+            "expression's operation count (1e-9 norm-wise for box-scaled data and reciprocal vectors).",
     'technique': 'Lean 4 theorems over a hand-written executable model + differential correspondence + clause oracle',
 }
